@@ -33,11 +33,11 @@ func (r *StringReader) Next() rune {
 		r.c++
 	} else {
 		var size int
+		// An invalid byte decodes as (RuneError, 1). It must be stepped over like any other character
+		// or a caller that does not give up on RuneError will never reach the end of the string.
 		c, size = utf8.DecodeRuneInString(r.s[r.p:])
-		if c != utf8.RuneError {
-			r.p += size
-			r.c++
-		}
+		r.p += size
+		r.c++
 	}
 	return c
 }
